@@ -62,6 +62,55 @@ def _return_chain_expr(body: List[ast.stmt]) -> Optional[ast.expr]:
     return None
 
 
+_PURE_BUILTINS = {"set", "frozenset", "range", "sorted", "tuple", "len", "min", "max", "sum", "int", "float", "abs", "enumerate", "zip", "isinstance", "bool",
+                  "reversed", "all", "any", "divmod", "round", "str", "None", "True", "False"}
+
+
+def _closed_pure_function(n: ast.FunctionDef) -> bool:
+    """The function reads nothing but its parameters, its own locals and side-effect-free builtins, mutates only
+    objects it created itself, and returns an immutable value (a tuple / frozenset / number built here): memoising it
+    cannot change what a call returns, so a memoised version is the function itself."""
+    params = {a.arg for a in n.args.args + n.args.kwonlyargs}
+    local = _assigned_names(n)
+    own = [x for st in n.body for x in _walk_own(st, not isinstance(st, (ast.FunctionDef, ast.ClassDef)))]
+    for x in own:
+        if isinstance(x, (ast.FunctionDef, ast.Lambda, ast.ClassDef)) and x is not n:
+            return False
+        if isinstance(x, ast.Name) and isinstance(x.ctx, ast.Load) and x.id not in params and x.id not in local and x.id not in _PURE_BUILTINS:
+            return False
+        if isinstance(x, (ast.Attribute, ast.Subscript)) and isinstance(x.ctx, (ast.Store, ast.Del)):
+            root = x
+            while isinstance(root, (ast.Attribute, ast.Subscript)):
+                root = root.value
+            if not (isinstance(root, ast.Name) and root.id in local and root.id not in params):
+                return False
+        if isinstance(x, ast.Call) and isinstance(x.func, ast.Attribute):
+            root = x.func.value
+            if not (isinstance(root, ast.Name) and root.id in local and root.id not in params):
+                return False  # a method call on something the function did not create
+        if isinstance(x, ast.AugAssign) and isinstance(x.target, ast.Name) and x.target.id in params:
+            return False
+        if isinstance(x, (ast.Import, ast.ImportFrom, ast.Global, ast.Nonlocal, ast.With, ast.Try, ast.Raise)):
+            return False
+    # locals must start as fresh objects (not aliases of a parameter) when they are mutated through methods / |=
+    mutated = {x.func.value.id for x in own if isinstance(x, ast.Call) and isinstance(x.func, ast.Attribute) and isinstance(x.func.value, ast.Name)}
+    mutated |= {x.target.id for x in own if isinstance(x, ast.AugAssign) and isinstance(x.target, ast.Name)}
+    for x in own:
+        if isinstance(x, ast.Assign):
+            for t in x.targets:
+                if isinstance(t, ast.Name) and t.id in mutated and not (isinstance(x.value, ast.Call) and isinstance(x.value.func, ast.Name) and x.value.func.id in ("set", "list", "dict", "sorted")
+                                                                       or isinstance(x.value, (ast.Constant, ast.List, ast.Set, ast.Dict, ast.BinOp))):
+                    return False
+    rets = [r for r in _walk_own(n, True) if isinstance(r, ast.Return)]
+    if not rets:
+        return False
+    for r in rets:
+        v = r.value
+        if not (isinstance(v, ast.Constant) or (isinstance(v, ast.Call) and isinstance(v.func, ast.Name) and v.func.id in ("tuple", "frozenset", "int", "float", "bool", "len", "str", "sum", "min", "max"))):
+            return False
+    return True
+
+
 class _Helper:
     def __init__(self, modname, cls, node: ast.FunctionDef):
         self.modname = modname
@@ -92,7 +141,7 @@ class _Helper:
         # cached result is a separate, construct-level rule that reads the tree as written)
         memo = [d for d in decos if d.split("(")[0].split(".")[-1] in ("lru_cache", "cache")]
         body_ = [s_ for s_ in n.body if not (isinstance(s_, ast.Expr) and isinstance(s_.value, ast.Constant))]
-        if memo and not (len(body_) == 1 and isinstance(body_[0], ast.Return) and body_[0].value is not None):
+        if memo and not (len(body_) == 1 and isinstance(body_[0], ast.Return) and body_[0].value is not None) and not _closed_pure_function(n):
             return False
         if any(d not in ("staticmethod",) and d not in memo for d in decos):
             return False
@@ -679,6 +728,9 @@ def _coalesce_aliases(fn: ast.FunctionDef) -> bool:
     return changed
 
 
+_RECORD_DEFAULTS: Dict[str, Dict[str, ast.expr]] = {}
+
+
 def _namedtuple_table(tree: ast.Module) -> Dict[str, List[str]]:
     out: Dict[str, List[str]] = {}
     for st in tree.body:
@@ -694,7 +746,175 @@ def _namedtuple_table(tree: ast.Module) -> Dict[str, List[str]]:
         elif isinstance(st, ast.ClassDef) and any((isinstance(b, ast.Name) and b.id == "NamedTuple") or (isinstance(b, ast.Attribute) and b.attr == "NamedTuple") for b in st.bases):
             # (methods of a record class are helpers of their own: a call that is left over blocks the scalar replacement)
             out[st.name] = [x.target.id for x in st.body if isinstance(x, ast.AnnAssign) and isinstance(x.target, ast.Name)]
+        elif isinstance(st, ast.ClassDef) and not st.bases and not st.decorator_list:
+            # a plain record class: __init__(self, a, b, c) that stores exactly its parameters (`self.a = a` ...), nothing else
+            init = next((x for x in st.body if isinstance(x, ast.FunctionDef) and x.name == "__init__"), None)
+            if init is None or init.args.vararg or init.args.kwarg or init.args.kwonlyargs or init.args.posonlyargs:
+                continue
+            params = [a.arg for a in init.args.args[1:]]
+            body = [x for x in init.body if not (isinstance(x, ast.Expr) and isinstance(x.value, ast.Constant))]
+            stored = []
+            ok = True
+            for x in body:
+                if isinstance(x, ast.AnnAssign) and x.value is not None:
+                    x = ast.Assign(targets=[x.target], value=x.value)
+                if isinstance(x, ast.Assign) and len(x.targets) == 1 and isinstance(x.targets[0], ast.Attribute) and isinstance(x.targets[0].value, ast.Name) and x.targets[0].value.id == "self" \
+                        and isinstance(x.value, ast.Name) and x.value.id == x.targets[0].attr and x.value.id in params:
+                    stored.append(x.value.id)
+                else:
+                    ok = False
+            dflt = list(init.args.defaults)
+            if ok and params and sorted(stored) == sorted(params) and all(isinstance(d, ast.Constant) for d in dflt):
+                out[st.name] = params
+                _RECORD_DEFAULTS[st.name] = dict(zip(params[len(params) - len(dflt):], dflt)) if dflt else {}
     return out
+
+
+_LIBRARY_METHOD_NAMES = (set(dir(dict)) | set(dir(list)) | set(dir(tuple)) | set(dir(str)) | set(dir(set)) | set(dir(float)) | {
+    "all", "any", "argmax", "argmin", "argsort", "astype", "clip", "conj", "cumsum", "cumprod", "diagonal", "dot", "fill", "flatten", "item", "max", "mean", "min",
+    "nonzero", "prod", "ravel", "repeat", "reshape", "resize", "round", "squeeze", "std", "sum", "swapaxes", "take", "tolist", "tobytes", "trace", "transpose", "var",
+    "view", "close", "read", "write", "flush", "map", "apply", "run", "fit", "predict", "update_stats", "update_iter"})
+
+
+def _record_classes_to_tuples(tree: ast.Module, modname: str, table: Set[str]) -> List[str]:
+    """A new plain record class (`__init__` stores exactly its parameters; every other method is a parameterless
+    one-expression view of the fields) whose instances are only ever built by direct constructor calls and used through
+    those methods: instances become tuples of the fields (`R(a, b)` -> `(a, b)`, `x.m()` -> the method's expression
+    over `x[i]`), so that records kept in containers read like the tuples they stand for."""
+    done: List[str] = []
+    nts = _namedtuple_table(tree)
+    classes = {c.name: c for c in tree.body if isinstance(c, ast.ClassDef)}
+    for R, cls in list(classes.items()):
+        if R not in nts or cls.bases or cls.decorator_list or any(q.startswith(f"{modname}:{R}.") or q == f"{modname}:{R}" for q in table):
+            continue
+        fields = nts[R]
+        defaults = _RECORD_DEFAULTS.get(R, {})
+        methods: Dict[str, ast.expr] = {}
+        ok = True
+        for x in cls.body:
+            if isinstance(x, ast.Expr) and isinstance(x.value, ast.Constant):
+                continue
+            if isinstance(x, ast.Assign) and len(x.targets) == 1 and isinstance(x.targets[0], ast.Name) and x.targets[0].id == "__slots__":
+                continue
+            if isinstance(x, ast.FunctionDef) and x.name == "__init__":
+                continue
+            if isinstance(x, ast.FunctionDef) and not x.name.startswith("__") and not x.decorator_list and [a.arg for a in x.args.args] == ["self"] \
+                    and not (x.args.vararg or x.args.kwarg or x.args.kwonlyargs):
+                body = [b for b in x.body if not (isinstance(b, ast.Expr) and isinstance(b.value, ast.Constant))]
+                if len(body) == 1 and isinstance(body[0], ast.Return) and body[0].value is not None:
+                    e = body[0].value
+                    selfs = [n for n in ast.walk(e) if isinstance(n, ast.Name) and n.id == "self"]
+                    attrs = [n for n in ast.walk(e) if isinstance(n, ast.Attribute) and isinstance(n.value, ast.Name) and n.value.id == "self"]
+                    if len(selfs) == len(attrs) and all(a.attr in fields and isinstance(a.ctx, ast.Load) for a in attrs) and not any(isinstance(n, (ast.Lambda, ast.NamedExpr, ast.Yield, ast.Await)) for n in ast.walk(e)):
+                        methods[x.name] = e
+                        continue
+            ok = False
+            break
+        if not ok or any(m in _LIBRARY_METHOD_NAMES or m in fields for m in methods):
+            continue
+        if any(m in {y.name for y in c2.body if isinstance(y, ast.FunctionDef)} for m in methods for c2 in classes.values() if c2 is not cls):
+            continue
+        inside = {id(n) for n in ast.walk(cls)}
+        outside = [n for n in ast.walk(tree) if id(n) not in inside]
+        parents: Dict[int, ast.AST] = {}
+        for p_ in outside:
+            for c_ in ast.iter_child_nodes(p_):
+                parents[id(c_)] = p_
+        ctor_calls = []
+        for n in outside:
+            if isinstance(n, ast.Name) and n.id == R:
+                par = parents.get(id(n))
+                if not (isinstance(par, ast.Call) and par.func is n):
+                    ok = False
+                    break
+                if any(isinstance(a, ast.Starred) for a in par.args) or any(k.arg is None or k.arg not in fields for k in par.keywords) or len(par.args) > len(fields):
+                    ok = False
+                    break
+                got = set(fields[:len(par.args)]) | {k.arg for k in par.keywords}
+                if len(got) != len(par.args) + len(par.keywords) or any(f not in got and f not in defaults for f in fields):
+                    ok = False
+                    break
+                ctor_calls.append(par)
+            elif isinstance(n, ast.Constant) and n.value == R:
+                ok = False
+                break
+        if not ok or not ctor_calls:
+            continue
+        method_calls = []
+        for n in outside:
+            if not isinstance(n, ast.Attribute):
+                continue
+            if n.attr in methods:
+                par = parents.get(id(n))
+                if not (isinstance(par, ast.Call) and par.func is n and not par.args and not par.keywords) or not _pure_place(n.value):
+                    ok = False
+                    break
+                method_calls.append(par)
+            elif n.attr in fields and not (isinstance(n.value, ast.Name) and n.value.id == "self"):
+                ok = False  # a field read on something that may be a record: not decided here
+                break
+        if not ok:
+            continue
+        for c in ctor_calls:
+            vals = {f: a for f, a in zip(fields, c.args)}
+            vals.update({k.arg: k.value for k in c.keywords})
+            # evaluation order: positional then keywords as written; only reorder when the keyword values are simple
+            kw_order = [k.arg for k in c.keywords]
+            if kw_order != [f for f in fields if f in kw_order] and not all(_simple(k.value) or isinstance(k.value, ast.Constant) for k in c.keywords):
+                ok = False
+                break
+        if not ok:
+            continue
+        repl: Dict[int, ast.expr] = {}
+        for c in ctor_calls:
+            vals = {f: a for f, a in zip(fields, c.args)}
+            vals.update({k.arg: k.value for k in c.keywords})
+            repl[id(c)] = ast.Tuple(elts=[vals[f] if f in vals else copy.deepcopy(defaults[f]) for f in fields], ctx=ast.Load())
+        for c in method_calls:
+            recv = c.func.value
+
+            class Sub(ast.NodeTransformer):
+                def visit_Attribute(self, node):
+                    if isinstance(node.value, ast.Name) and node.value.id == "self":
+                        return ast.Subscript(value=copy.deepcopy(recv), slice=ast.Constant(value=fields.index(node.attr)), ctx=ast.Load())
+                    return self.generic_visit(node)
+
+            mexpr = methods[c.func.attr]
+            if isinstance(mexpr, ast.Tuple) and [ast.unparse(x) for x in mexpr.elts] == [f"self.{f}" for f in fields]:
+                repl[id(c)] = copy.deepcopy(recv)  # the whole record
+            else:
+                repl[id(c)] = Sub().visit(copy.deepcopy(mexpr))
+
+        class Rw(ast.NodeTransformer):
+            def visit_Call(self, node):
+                self.generic_visit(node)
+                r = repl.get(id(node))
+                if r is not None:
+                    if isinstance(r, ast.Tuple):
+                        r.elts = [self.visit(e) if id(e) in repl else e for e in r.elts]
+                    return ast.copy_location(r, node)
+                return node
+
+            def visit_ClassDef(self, node):
+                return node if node is cls else self.generic_visit(node)
+
+        Rw().visit(tree)
+        tree.body = [x for x in tree.body if x is not cls]
+        done.append(f"{modname}:{R} <record class written as tuples>")
+    if done:
+        ast.fix_missing_locations(tree)
+    return done
+
+
+def _pure_place(e: ast.expr) -> bool:
+    """name / attribute / constant-or-name subscript chains: reading them twice gives the same object"""
+    if isinstance(e, ast.Name):
+        return True
+    if isinstance(e, ast.Attribute):
+        return _pure_place(e.value)
+    if isinstance(e, ast.Subscript):
+        return _pure_place(e.value) and (isinstance(e.slice, (ast.Constant, ast.Name)) or (isinstance(e.slice, ast.Tuple) and all(isinstance(x, (ast.Constant, ast.Name)) for x in e.slice.elts)))
+    return False
 
 
 def _inline_record_constants(tree: ast.Module, nts: Dict[str, List[str]]) -> bool:
@@ -726,6 +946,32 @@ def _inline_record_constants(tree: ast.Module, nts: Dict[str, List[str]]) -> boo
     return changed
 
 
+def _never_none(e: ast.expr) -> bool:
+    """syntactically not None: a display, a comprehension, arithmetic, a formatted string, a non-None constant"""
+    return isinstance(e, (ast.Tuple, ast.List, ast.Dict, ast.Set, ast.ListComp, ast.SetComp, ast.DictComp, ast.BinOp, ast.JoinedStr, ast.Compare)) \
+        or (isinstance(e, ast.Constant) and e.value is not None)
+
+
+def _none_witness_field(fn: ast.FunctionDef, r: str, nt: str, fields: List[str]) -> Optional[str]:
+    """For a local that is None or a record: a field whose value is never None whenever the record exists (in every
+    constructor call bound to r), so that `r is None` is `r__<field> is None`."""
+    ctors = [x.value for x in ast.walk(fn) if isinstance(x, ast.Assign) and len(x.targets) == 1 and isinstance(x.targets[0], ast.Name) and x.targets[0].id == r
+             and isinstance(x.value, ast.Call) and isinstance(x.value.func, ast.Name) and x.value.func.id == nt]
+    if not ctors or any(any(isinstance(a, ast.Starred) for a in c.args) for c in ctors):
+        return None
+    for f in fields:
+        good = True
+        for c in ctors:
+            vals = {g: a for g, a in zip(fields, c.args)}
+            vals.update({k.arg: k.value for k in c.keywords if k.arg})
+            if f not in vals or not _never_none(vals[f]):
+                good = False
+                break
+        if good:
+            return f
+    return None
+
+
 def _record_ok(fn: ast.FunctionDef, r: str, rec_vars: Dict[str, str], nts: Dict[str, List[str]]):
     """(every occurrence of the record variable r fits a replaceable pattern, list variables that collect r)"""
     nt = rec_vars[r]
@@ -752,8 +998,17 @@ def _record_ok(fn: ast.FunctionDef, r: str, rec_vars: Dict[str, str], nts: Dict[
                 continue
             if isinstance(par, ast.Assign) and par.value is x and len(par.targets) == 1 and isinstance(par.targets[0], ast.Name) and rec_vars.get(par.targets[0].id) == nt and par.targets[0].id != r:
                 continue  # `q = r`: q is a record variable of the same group
+            if isinstance(par, ast.Compare) and par.left is x and len(par.ops) == 1 and isinstance(par.ops[0], (ast.Is, ast.IsNot)) \
+                    and isinstance(par.comparators[0], ast.Constant) and par.comparators[0].value is None:
+                if _none_witness_field(fn, r, nt, fields) is None:
+                    ok = False
+                continue  # `r is None` / `r is not None`: read off the witness field
             if isinstance(par, ast.Assign) and x in par.targets:
                 v = par.value
+                if isinstance(v, ast.Constant) and v.value is None and len(par.targets) == 1:
+                    if _none_witness_field(fn, r, nt, fields) is None:
+                        ok = False
+                    continue  # `r = None`: no record (every field None)
                 if isinstance(v, ast.Name) and rec_vars.get(v.id) == nt and v.id != r and len(par.targets) == 1:
                     continue  # `r = q`
                 if isinstance(v, ast.Call) and isinstance(v.func, ast.Name) and v.func.id == nt:
@@ -815,6 +1070,14 @@ def _scalar_replace_records(fn: ast.FunctionDef, nts: Dict[str, List[str]]) -> b
             rec_vars[x.targets[0].id] = x.value.func.id
     if not rec_vars:
         return False
+    # constructor calls that leave defaulted fields out are completed first
+    for x in ast.walk(fn):
+        if isinstance(x, ast.Call) and isinstance(x.func, ast.Name) and x.func.id in nts and _RECORD_DEFAULTS.get(x.func.id) and not any(isinstance(a, ast.Starred) for a in x.args):
+            fields_ = nts[x.func.id]
+            given = set(fields_[: len(x.args)]) | {k.arg for k in x.keywords if k.arg}
+            for f_, d_ in _RECORD_DEFAULTS[x.func.id].items():
+                if f_ not in given:
+                    x.keywords.append(ast.keyword(arg=f_, value=copy.deepcopy(d_)))
     # names bound to another record variable are record variables too
     for _ in range(4):
         for x in ast.walk(fn):
@@ -857,6 +1120,14 @@ def _scalar_replace_records(fn: ast.FunctionDef, nts: Dict[str, List[str]]) -> b
                     return ast.Name(id=nm(r, node.attr), ctx=node.ctx)
                 return node
 
+            def visit_Compare(self, node):
+                if isinstance(node.left, ast.Name) and node.left.id == r and len(node.ops) == 1 and isinstance(node.ops[0], (ast.Is, ast.IsNot)) \
+                        and isinstance(node.comparators[0], ast.Constant) and node.comparators[0].value is None:
+                    w = _none_witness_field(fn, r, nt, fields)
+                    if w is not None:
+                        return ast.copy_location(ast.Compare(left=ast.Name(id=nm(r, w), ctx=ast.Load()), ops=node.ops, comparators=node.comparators), node)
+                return self.generic_visit(node)
+
             def visit_ListComp(self, node):
                 g = node.generators[0] if len(node.generators) == 1 else None
                 if g is not None and isinstance(g.iter, ast.Name) and g.iter.id in lists and isinstance(node.elt, ast.Attribute):
@@ -875,6 +1146,10 @@ def _scalar_replace_records(fn: ast.FunctionDef, nts: Dict[str, List[str]]) -> b
                         h.body = rewrite(h.body)
                 if isinstance(st, ast.Assign) and len(st.targets) == 1 and isinstance(st.targets[0], ast.Name):
                     t, v = st.targets[0].id, st.value
+                    if t == r and isinstance(v, ast.Constant) and v.value is None:
+                        for f in fields:
+                            out.append(ast.copy_location(ast.Assign(targets=[ast.Name(id=nm(r, f), ctx=ast.Store())], value=ast.Constant(value=None)), st))
+                        continue
                     if t == r and isinstance(v, ast.Call) and isinstance(v.func, ast.Name) and v.func.id == nt:
                         if len(v.args) == 1 and isinstance(v.args[0], ast.Starred):
                             out.append(ast.Assign(targets=[ast.Tuple(elts=[ast.Name(id=nm(r, f), ctx=ast.Store()) for f in fields], ctx=ast.Store())], value=Rw().visit(v.args[0].value)))
@@ -2445,10 +2720,43 @@ def _hoist_nested_helper_calls(tree: ast.Module, modname: str, table: Set[str]) 
 def _const_getattr(tree: ast.AST) -> bool:
     """getattr(obj, "name") with a literal name and no default is the attribute access obj.name."""
     changed = [False]
+    mod_tuples: Dict[str, List[str]] = {}
+    if isinstance(tree, ast.Module):
+        cnt: Dict[str, int] = {}
+        for x in ast.walk(tree):
+            if isinstance(x, ast.Name) and isinstance(x.ctx, (ast.Store, ast.Del)):
+                cnt[x.id] = cnt.get(x.id, 0) + 1
+        for st in tree.body:
+            if isinstance(st, ast.Assign) and len(st.targets) == 1 and isinstance(st.targets[0], ast.Name) and cnt.get(st.targets[0].id) == 1 \
+                    and isinstance(st.value, (ast.Tuple, ast.List)) and st.value.elts and all(isinstance(e, ast.Constant) and isinstance(e.value, str) for e in st.value.elts) \
+                    and (isinstance(st.value, ast.Tuple) or not any(isinstance(a, ast.Attribute) and isinstance(a.value, ast.Name) and a.value.id == st.targets[0].id for a in ast.walk(tree))):
+                mod_tuples[st.targets[0].id] = [e.value for e in st.value.elts]
+    counter = [0]
 
     class T(ast.NodeTransformer):
         def visit_Call(self, node):
             node = self.generic_visit(node)
+            # dict(zip(KEYS, (a, b, c))) with literal string keys -> {"k1": a, "k2": b, "k3": c}
+            if isinstance(node.func, ast.Name) and node.func.id == "dict" and len(node.args) == 1 and not node.keywords and isinstance(node.args[0], ast.Call) \
+                    and isinstance(node.args[0].func, ast.Name) and node.args[0].func.id == "zip" and len(node.args[0].args) == 2 and not node.args[0].keywords:
+                k_, v_ = node.args[0].args
+                keys = None
+                if isinstance(k_, (ast.Tuple, ast.List)) and all(isinstance(e, ast.Constant) and isinstance(e.value, str) for e in k_.elts):
+                    keys = [e.value for e in k_.elts]
+                elif isinstance(k_, ast.Name) and k_.id in mod_tuples:
+                    keys = mod_tuples[k_.id]
+                if keys and isinstance(v_, (ast.Tuple, ast.List)) and len(v_.elts) == len(keys) and len(set(keys)) == len(keys) and not any(isinstance(e, ast.Starred) for e in v_.elts):
+                    changed[0] = True
+                    return ast.copy_location(ast.Dict(keys=[ast.Constant(value=k) for k in keys], values=list(v_.elts)), node)
+            # list(map(f, X)) -> [f(_m) for _m in X]
+            if isinstance(node.func, ast.Name) and node.func.id == "list" and len(node.args) == 1 and not node.keywords and isinstance(node.args[0], ast.Call) \
+                    and isinstance(node.args[0].func, ast.Name) and node.args[0].func.id == "map" and len(node.args[0].args) == 2 and not node.args[0].keywords \
+                    and _simple(node.args[0].args[0]) and not isinstance(node.args[0].args[1], ast.Starred):
+                counter[0] += 1
+                v = f"_m{counter[0]}"
+                changed[0] = True
+                return ast.copy_location(ast.ListComp(elt=ast.Call(func=node.args[0].args[0], args=[ast.Name(id=v, ctx=ast.Load())], keywords=[]),
+                                                      generators=[ast.comprehension(target=ast.Name(id=v, ctx=ast.Store()), iter=node.args[0].args[1], ifs=[], is_async=0)]), node)
             # dict(a=x, b=y) -> {"a": x, "b": y}
             if isinstance(node.func, ast.Name) and node.func.id == "dict" and not node.args and node.keywords and all(k.arg for k in node.keywords):
                 changed[0] = True
@@ -2678,6 +2986,16 @@ def _unroll_literal_loops(fn: ast.FunctionDef, consts: Optional[Dict[str, ast.ex
     return changed[0]
 
 
+class _ReplaceName(ast.NodeTransformer):
+    def __init__(self, name: str, expr: ast.expr):
+        self.name, self.expr = name, expr
+
+    def visit_Name(self, node):
+        if node.id == self.name and isinstance(node.ctx, ast.Load):
+            return ast.copy_location(copy.deepcopy(self.expr), node)
+        return node
+
+
 def _unroll_local_dict_tables(fn: ast.FunctionDef) -> bool:
     """A local dict used only as a table:
 
@@ -2768,6 +3086,30 @@ def _unroll_local_dict_tables(fn: ast.FunctionDef) -> bool:
                     plan[j] = rep
                     loops += 1
                     continue
+                # the table handed on as a whole, once (an argument / a returned value): the display it stands for, per
+                # combination of the entry conditions
+                whole = [x for x in uses(s2, D)]
+                conds_ = [c for (_, _, c) in entries if c is not None]
+                if n_here == 1 and isinstance(whole[0].ctx, ast.Load) and isinstance(s2, (ast.Expr, ast.Assign, ast.Return)) and len({ast.unparse(c) for c in conds_}) <= 2 \
+                        and seen_uses == total_uses and len({k.value for (k, _, _) in entries}) == len(entries) \
+                        and not any(isinstance(p_, (ast.Lambda, ast.ListComp, ast.GeneratorExp, ast.DictComp, ast.SetComp)) for p_ in ast.walk(s2)):
+                    uniq = []
+                    for c in conds_:
+                        if ast.unparse(c) not in [ast.unparse(u) for u in uniq]:
+                            uniq.append(c)
+
+                    def build(assign: Dict[str, bool], rest: List[ast.expr]):
+                        if rest:
+                            c = rest[0]
+                            return [ast.copy_location(ast.If(test=copy.deepcopy(c), body=build({**assign, ast.unparse(c): True}, rest[1:]),
+                                                             orelse=build({**assign, ast.unparse(c): False}, rest[1:])), s2)]
+                        ks = [(k, v) for (k, v, c) in entries if c is None or assign[ast.unparse(c)]]
+                        disp = ast.Dict(keys=[copy.deepcopy(k) for k, _ in ks], values=[copy.deepcopy(v) for _, v in ks])
+                        return [_ReplaceName(D, disp).visit(copy.deepcopy(s2))]
+
+                    plan[j] = build({}, uniq)
+                    loops += 1
+                    continue
                 ok = False
                 break
             if not ok or loops == 0 or seen_uses != total_uses:
@@ -2845,6 +3187,92 @@ def _merge_dict_builds(fn: ast.FunctionDef) -> bool:
 
     fn.body = rewrite(fn.body)
     return changed[0]
+
+
+def _search_loop_to_all_any(fn: ast.FunctionDef) -> bool:
+    """A predicate written as a scan --
+           for t in X:                       for t in X:
+               if not P(t): return False         if P(t): return True
+           return True                       return False
+    -- is `return all(P(t) for t in X)` / `return any(P(t) for t in X)` (same short-circuit order)."""
+    body = [b for b in fn.body if not (isinstance(b, ast.Expr) and isinstance(b.value, ast.Constant))]
+    if len(body) != 2 or not isinstance(body[0], ast.For) or body[0].orelse or not isinstance(body[1], ast.Return):
+        return False
+    loop, last = body
+    if len(loop.body) != 1 or not isinstance(loop.body[0], ast.If) or loop.body[0].orelse:
+        return False
+    iff = loop.body[0]
+    if len(iff.body) != 1 or not isinstance(iff.body[0], ast.Return):
+        return False
+    a, b = iff.body[0].value, last.value
+    if not (isinstance(a, ast.Constant) and isinstance(b, ast.Constant) and isinstance(a.value, bool) and isinstance(b.value, bool) and a.value != b.value):
+        return False
+    if any(isinstance(x, (ast.NamedExpr, ast.Yield, ast.Await)) for x in ast.walk(iff.test)):
+        return False
+    elt = iff.test if a.value else _negate(iff.test)
+    gen = ast.GeneratorExp(elt=elt, generators=[ast.comprehension(target=loop.target, iter=loop.iter, ifs=[], is_async=0)])
+    new_ret = ast.copy_location(ast.Return(value=ast.Call(func=ast.Name(id="any" if a.value else "all", ctx=ast.Load()), args=[gen], keywords=[])), loop)
+    fn.body = [x for x in fn.body if x is not loop and x is not last] + [new_ret]
+    ast.fix_missing_locations(fn)
+    return True
+
+
+def _expand_kwargs_splat(fn: ast.FunctionDef) -> bool:
+    """`kw = dict(a=X, b=Y)` (or the display form) assigned once at the top level of the function body and used only as
+    `**kw` in later calls: the values are bound once to locals `kw__a`, `kw__b` (same evaluation order and count), and each
+    `**kw` becomes the explicit keywords `a=kw__a, b=kw__b`."""
+    changed = False
+    for i, st in enumerate(list(fn.body)):
+        if not (isinstance(st, ast.Assign) and len(st.targets) == 1 and isinstance(st.targets[0], ast.Name)):
+            continue
+        v = st.value
+        items = None
+        if isinstance(v, ast.Dict) and v.keys and all(isinstance(k, ast.Constant) and isinstance(k.value, str) and k.value.isidentifier() for k in v.keys):
+            items = [(k.value, x) for k, x in zip(v.keys, v.values)]
+        elif isinstance(v, ast.Call) and isinstance(v.func, ast.Name) and v.func.id == "dict" and not v.args and v.keywords and all(k.arg for k in v.keywords):
+            items = [(k.arg, k.value) for k in v.keywords]
+        if not items or len({k for k, _ in items}) != len(items):
+            continue
+        D = st.targets[0].id
+        uses = [x for x in _walk_own(fn, True) if isinstance(x, ast.Name) and x.id == D]
+        if any(isinstance(x, ast.Name) and x.id == D for x in ast.walk(fn) if x not in uses):
+            continue  # also referenced from a nested function
+        if sum(isinstance(x.ctx, ast.Store) for x in uses) != 1:
+            continue
+        splats = [k for c in _walk_own(fn, True) if isinstance(c, ast.Call) for k in c.keywords if k.arg is None and isinstance(k.value, ast.Name) and k.value.id == D]
+        if not splats or len(splats) != len(uses) - 1:
+            continue
+        later = set()
+        for s2 in fn.body[i + 1:]:
+            later |= {id(x) for x in ast.walk(s2)}
+        if any(id(k.value) not in later for k in splats):
+            continue
+        if any(isinstance(n, ast.Name) and n.id.startswith(D + "__") for n in ast.walk(fn)):
+            continue
+        ok = True
+        for c in _walk_own(fn, True):
+            if isinstance(c, ast.Call) and any(k in splats for k in c.keywords):
+                explicit = {k.arg for k in c.keywords if k.arg}
+                if explicit & {k for k, _ in items} or sum(1 for k in c.keywords if k.arg is None) > 1:
+                    ok = False
+        if not ok:
+            continue
+        binds = [ast.copy_location(ast.Assign(targets=[ast.Name(id=f"{D}__{k}", ctx=ast.Store())], value=x), st) for k, x in items]
+        for c in _walk_own(fn, True):
+            if isinstance(c, ast.Call) and any(k in splats for k in c.keywords):
+                kws = []
+                for k in c.keywords:
+                    if k in splats:
+                        kws.extend(ast.keyword(arg=kk, value=ast.Name(id=f"{D}__{kk}", ctx=ast.Load())) for kk, _ in items)
+                    else:
+                        kws.append(k)
+                c.keywords = kws
+        idx = fn.body.index(st)
+        fn.body[idx:idx + 1] = binds
+        changed = True
+    if changed:
+        ast.fix_missing_locations(fn)
+    return changed
 
 
 def _scalarise_local_dicts(fn: ast.FunctionDef) -> bool:
@@ -2953,6 +3381,81 @@ def _scalarise_local_dicts(fn: ast.FunctionDef) -> bool:
     if changed[0]:
         ast.fix_missing_locations(fn)
     return changed[0]
+
+
+def _inline_none_flags(fn: ast.FunctionDef) -> bool:
+    """`flag = X is [not] None` with X an attribute chain over a name the function never re-binds (and an attribute it
+    never stores), flag bound once: every later read of `flag` becomes the test itself (`not flag` the flipped test)."""
+    import copy
+    changed = False
+    own = list(_walk_own(fn, True))
+    stores = {}
+    for x in own:
+        if isinstance(x, ast.Name) and isinstance(x.ctx, (ast.Store, ast.Del)):
+            stores[x.id] = stores.get(x.id, 0) + 1
+    attr_stores = {ast.unparse(x) for x in own if isinstance(x, ast.Attribute) and isinstance(x.ctx, (ast.Store, ast.Del))}
+    nested_names = {n.id for d in own if d is not fn and isinstance(d, (ast.FunctionDef, ast.Lambda, ast.ClassDef)) for n in ast.walk(d) if isinstance(n, ast.Name)}
+
+    def chain_root(e):
+        while isinstance(e, ast.Attribute):
+            e = e.value
+        return e if isinstance(e, ast.Name) else None
+
+    def blocks(stmts):
+        yield stmts
+        for st in stmts:
+            if isinstance(st, (ast.FunctionDef, ast.ClassDef)):
+                continue
+            for fld in ("body", "orelse", "finalbody"):
+                sub = getattr(st, fld, None)
+                if isinstance(sub, list) and sub and isinstance(sub[0], ast.stmt):
+                    yield from blocks(sub)
+            if isinstance(st, ast.Try):
+                for hd in st.handlers:
+                    yield from blocks(hd.body)
+
+    for blk in list(blocks(fn.body)):
+        for st in list(blk):
+            if not (isinstance(st, ast.Assign) and len(st.targets) == 1 and isinstance(st.targets[0], ast.Name)):
+                continue
+            F = st.targets[0].id
+            v = st.value
+            if not (isinstance(v, ast.Compare) and len(v.ops) == 1 and isinstance(v.ops[0], (ast.Is, ast.IsNot))
+                    and isinstance(v.comparators[0], ast.Constant) and v.comparators[0].value is None):
+                continue
+            root = chain_root(v.left)
+            if root is None or stores.get(F, 0) != 1 or F in nested_names or stores.get(root.id, 0) != 0:
+                continue
+            if any(ast.unparse(v.left) == a or ast.unparse(v.left).startswith(a + ".") for a in attr_stores):
+                continue
+            loads = [x for x in own if isinstance(x, ast.Name) and x.id == F and isinstance(x.ctx, ast.Load)]
+            if not loads or any((x.lineno, x.col_offset) <= (st.lineno, st.col_offset) for x in loads):
+                continue
+
+            class Rw(ast.NodeTransformer):
+                def visit_UnaryOp(self, node):
+                    if isinstance(node.op, ast.Not) and isinstance(node.operand, ast.Name) and node.operand.id == F:
+                        return ast.copy_location(_negate(copy.deepcopy(v)), node)
+                    return self.generic_visit(node)
+
+                def visit_Name(self, node):
+                    if node.id == F and isinstance(node.ctx, ast.Load):
+                        return ast.copy_location(copy.deepcopy(v), node)
+                    return node
+
+                def visit_FunctionDef(self, node):
+                    return node
+
+            blk.remove(st)
+            for k, s2 in enumerate(fn.body):
+                fn.body[k] = Rw().visit(s2)
+            if not blk:
+                blk.append(ast.Pass())
+            changed = True
+            own = list(_walk_own(fn, True))
+    if changed:
+        ast.fix_missing_locations(fn)
+    return changed
 
 
 def _thread_none_flags(fn: ast.FunctionDef) -> bool:
@@ -3186,11 +3689,18 @@ def normalize_sources(sources: Dict[str, str], table: Optional[Set[str]] = None)
             sugar |= _desugar_match(fn_)
             sugar |= _desugar_walrus_and_partial(fn_)
             sugar |= _open_close_to_with(fn_)
+            sugar |= _expand_kwargs_splat(fn_)
+            sugar |= _search_loop_to_all_any(fn_)
         if sugar:
             changed_any = True
             ast.fix_missing_locations(tree)
             tree = ast.parse(ast.unparse(tree))
-            inlined.append(f"{modname}:<match / walrus / partial / open-close written out>")
+            inlined.append(f"{modname}:<match / walrus / partial / open-close / **kwargs / scan predicates written out>")
+        rec_done = _record_classes_to_tuples(tree, modname, table)
+        if rec_done:
+            changed_any = True
+            tree = ast.parse(ast.unparse(tree))
+            inlined.extend(rec_done)
         imported = _import_new_helpers(tree, modname, all_trees, table)
         if imported:
             changed_any = True
@@ -3356,6 +3866,7 @@ def normalize_sources(sources: Dict[str, str], table: Optional[Set[str]] = None)
                     _coalesce_aliases(st)
                     _canonical_loops(st)
                     _scalar_replace_records(st, nts2)
+                    _inline_none_flags(st)
                     if _expand_ifexp_assigns(st):
                         _coalesce_aliases(st)
                         _coalesce_phi(st)
@@ -3378,6 +3889,7 @@ def normalize_sources(sources: Dict[str, str], table: Optional[Set[str]] = None)
                             _coalesce_aliases(s2)
                             _canonical_loops(s2)
                             _scalar_replace_records(s2, nts2)
+                            _inline_none_flags(s2)
                             if _expand_ifexp_assigns(s2):
                                 _coalesce_aliases(s2)
                                 _coalesce_phi(s2)
